@@ -284,6 +284,54 @@ def check_c16(chk, args):
                 cases.append(case)
                 meta[cid] = desc
                 chk.nontrivial(('val', desc['value'], name))
+        # (c) the coloured entry point end to end: cpprint(v, **cfg) with the styling removed is pformat(v, **cfg) + end,
+        #     for every configuration (explicit / defaulted width, ribbon_width, indent, depth, max_seq_len, sort_dict_keys)
+        import prettyprinter as PP
+        n_entry = 0
+        evals = vals if not q else rng.sample(vals, 6) + vals[-6:]
+        for v in evals:
+            for _ in range(6 if q else 12):
+                cfg = {}
+                if rng.random() < 0.8:
+                    cfg['width'] = rng.choice([10, 20, 40, 72, 79, 100, 120])
+                if rng.random() < 0.6:
+                    cfg['ribbon_width'] = rng.choice([8, 15, 30, 50, 71, 90])
+                if rng.random() < 0.3:
+                    cfg['indent'] = rng.choice([1, 2, 8])
+                if rng.random() < 0.3:
+                    cfg['depth'] = rng.choice([1, 2, 3])
+                if rng.random() < 0.3:
+                    cfg['max_seq_len'] = rng.choice([1, 2, 5])
+                if rng.random() < 0.3:
+                    cfg['sort_dict_keys'] = rng.choice([True, False])
+                name, style = rng.choice(styles)
+                desc = {'value': repr(v)[:200], 'style': name, 'config': cfg, 'entry': 'cpprint'}
+                try:
+                    with warnings.catch_warnings():
+                        warnings.simplefilter('ignore')
+                        with common.time_limit(20):
+                            plain = PP.pformat(v, **cfg)
+                except (Exception, common.Timeout):
+                    continue
+                buf = io.StringIO()
+                try:
+                    with warnings.catch_warnings():
+                        warnings.simplefilter('ignore')
+                        with common.time_limit(20):
+                            PP.cpprint(v, stream=buf, style=style, end='<E>', **cfg)
+                    chars, final = decode(buf.getvalue())
+                except (Exception, common.Timeout) as e:  # noqa
+                    chk.violation('C16.raises', 'cpprint(%.100r, %r) raised %r although pformat succeeds' % (v, cfg, e), desc)
+                    continue
+                n_entry += 1
+                chk.nontrivial(('entry', desc['value'], tuple(sorted(cfg.items()))))
+                stripped = ''.join(chr(c) for c, _ in chars)
+                if stripped != plain + '<E>':
+                    desc['plain'] = plain[:400]
+                    desc['stripped'] = stripped[:400]
+                    chk.violation('C16.strip-entry', 'cpprint(%.100r, %r) with the styling removed is not pformat(...) + end'
+                                  % (v, cfg), desc)
+        chk.cov['entry_point_renderings'] = n_entry
     finally:
         colorful.colorful.colormode = mode
     can = []
@@ -323,7 +371,9 @@ def check_c16(chk, args):
                        'bg, bold, italic, underline; (b) the SDoc streams of real values (strings with escapes, commented '
                        'values, calls) rendered with every pygments style installed plus the two bundled ones; colour '
                        'forced on with colorful.use_true_colors(); the written bytes are decoded by an SGR state machine '
-                       'and judged by TLC against Color!SpecChars; distinct by (stream or value, style)')
+                       'and judged by TLC against Color!SpecChars; (c) cpprint end to end under random configurations (width, ribbon_width, '
+                       'indent, depth, max_seq_len, sort_dict_keys given or defaulted) with the styling removed by the same decoder '
+                       'equals pformat under the same configuration + end; distinct by (stream or value, style / configuration)')
     for c in cases[:2] + cases[-2:]:
         chk.sample(meta[c['id']])
     chk.assumptions += ['the SGR decoder (24-bit colours, reset, bold, italic, underline) is trusted',
